@@ -725,8 +725,6 @@ def _forall_deltas(f, b, lit_for, need_update=None):
         det["problem"] = "no loop or all/any/find over the delta list with the required test found"
         return False, det
 
-    empty = pred_matcher(r"is_empty$", ())
-
     def guard_fn(bd, s, bb):
         out = []
         e = variant_edge(bd, s, bb, r"^self\.deltas$", 1)
